@@ -253,8 +253,164 @@ def on_two(p, r, exc, acc):
     acc.sample(dict(uris=[r["a"], r["b"]]))
 
 
+
+# ------------------------------------------------------------------ cached sections along an inheritance chain: each template owns its entries
+INH_FILES = {
+    "base": '<%def name="nav()" cached="True">base-nav${count("bn")}</%def><%block name="side" cached="True">base-side${count("bs")}</%block>B(${nav()}|${next.body()})',
+    "child": '<%inherit file="base"/><%def name="nav()" cached="True">child-nav${count("cn")}</%def>${nav()}',
+    "child2": '<%inherit file="base"/><%def name="nav()" cached="True">child2-nav${count("c2n")}</%def>${nav()}',
+}
+INH_OPS = ["render-child", "render-child2", "invalidate_def-nav@base", "invalidate_def-nav@child", "invalidate-render_side@base"]
+
+
+def inh_run(LKm, ops):
+    BK.reset()
+    counts = {}
+
+    def count(name):
+        counts[name] = counts.get(name, 0) + 1
+        return str(counts[name])
+    lk = LKm.TemplateLookup(cache_impl="refdict")
+    for k, v in INH_FILES.items():
+        lk.put_string(k, v)
+    res = []
+    for op in ops:
+        out = None
+        if op.startswith("render-"):
+            try:
+                out = lk.get_template(op[7:]).render(count=count)
+            except Exception as e:
+                out = "raised %s: %s" % (type(e).__name__, e)
+        elif op.startswith("invalidate_def-"):
+            name, tmpl = op[len("invalidate_def-"):].split("@")
+            lk.get_template(tmpl).cache.invalidate_def(name)
+        else:
+            key, tmpl = op[len("invalidate-"):].split("@")
+            lk.get_template(tmpl).cache.invalidate(key)
+        res.append((op, out, dict(counts)))
+    return res
+
+
+def inh_expected(ops):
+    store, counts, out = {}, {}, []
+
+    def sect(owner, key, text, counter):
+        if (owner, key) not in store:
+            counts[counter] = counts.get(counter, 0) + 1
+            store[(owner, key)] = text + str(counts[counter])
+        return store[(owner, key)]
+    for op in ops:
+        o = None
+        if op.startswith("render-"):
+            who = op[7:]
+            # the side block is declared by base only: it renders at its position in base - which precedes B( - from base's own cache
+            o = sect("base", "render_side", "base-side", "bs") + "B(" + sect("base", "render_nav", "base-nav", "bn") + "|" + \
+                sect(who, "render_nav", who + "-nav", {"child": "cn", "child2": "c2n"}[who]) + ")"
+        elif op.startswith("invalidate_def-"):
+            name, tmpl = op[len("invalidate_def-"):].split("@")
+            store.pop((tmpl, "render_" + name), None)
+        else:
+            key, tmpl = op[len("invalidate-"):].split("@")
+            store.pop((tmpl, key), None)
+        out.append((op, o, dict(counts)))
+    return out
+
+
+def h_inherit(n):
+    def h(p):
+        ops = ["render-child"] + [INH_OPS[p.choose(len(INH_OPS), "op%d" % i)] for i in range(n)] + ["render-child", "render-child2"]
+        return dict(ops=ops, res=inh_run(LK, ops))
+    return h
+
+
+def on_inherit(p, r, exc, acc):
+    if exc is not None:
+        acc.candidate(kind="harness-exception", input=None, detail="%s: %s" % (type(exc).__name__, str(exc)[:200]))
+        return
+    acc.tags["ran"] += 1
+    acc.vcs += 1
+    want = inh_expected(r["ops"])
+    for (op, out, counts), (_o, wout, wcounts) in zip(r["res"], want):
+        if out != wout or counts != wcounts:
+            acc.candidate(kind="cached-section-in-inheritance-chain", input=dict(inherit_ops=r["ops"]),
+                          detail="after %s: rendered %r with executions %r; documented %r with %r" % (op, out, counts, wout, wcounts))
+            break
+    acc.sample(dict(ops=r["ops"]))
+
+
+# ------------------------------------------------------------------ cache_key built from several pieces
+KEY_SPELLINGS = ["${ka}/${kb}", "${ka} ${kb}", "${ka}\t${kb}", " ${ka}${kb} ", "${ka}${kb}", "k ${ka} - ${kb}"]
+KEY_VALUES = [("1", "23"), ("12", "3"), ("", "123"), ("1", "23 ")]
+
+
+def key_run(TPm, spelling, pairs):
+    BK.reset()
+    n = [0]
+
+    def count():
+        n[0] += 1
+        return str(n[0])
+    t = TPm.Template('<%def name="d()" cached="True" cache_key="' + spelling + '">D${count()}</%def>${d()}', uri="c17key.html", cache_impl="refdict")
+    outs = [t.render(count=count, ka=a, kb=b) for a, b in pairs]
+    return outs, [key for kind, cid, key, kw in BK.LOG if kind == "get_or_create"]
+
+
+def key_expected(spelling, pairs):
+    seen, outs, keys = {}, [], []
+    for a, b in pairs:
+        k = spelling.replace("${ka}", a).replace("${kb}", b)
+        keys.append(k)
+        if k not in seen:
+            seen[k] = "D%d" % (len(seen) + 1)
+        outs.append(seen[k])
+    return outs, keys
+
+
+def h_key(p):
+    sp = KEY_SPELLINGS[p.choose(len(KEY_SPELLINGS), "cache_key_spelling")]
+    pairs = [KEY_VALUES[p.choose(len(KEY_VALUES), "values%d" % i)] for i in range(2)]
+    return dict(spelling=sp, pairs=pairs, got=key_run(TP, sp, pairs))
+
+
+def on_key(p, r, exc, acc):
+    if exc is not None:
+        acc.candidate(kind="harness-exception", input=None, detail="%s: %s" % (type(exc).__name__, str(exc)[:200]))
+        return
+    acc.tags["ran"] += 1
+    acc.vcs += 1
+    want = key_expected(r["spelling"], r["pairs"])
+    if (list(r["got"][0]), list(r["got"][1])) != (want[0], want[1]):
+        acc.candidate(kind="cache-key-value", input=dict(cache_key=r["spelling"], values=r["pairs"]),
+                      detail="outputs %r with backend keys %r; documented %r with keys %r" % (r["got"][0], r["got"][1], want[0], want[1]))
+    acc.sample(dict(cache_key=r["spelling"], values=r["pairs"], keys=r["got"][1]))
+
+
 def make_replay(c):
     i = c["input"] or {}
+
+    if "inherit_ops" in i or "cache_key" in i:
+        body = """
+sys.path.insert(0, "/verif")
+CASE = __CASE__
+import mako.lookup as LK, mako.template as TP, mako.cache as CA
+from props import C17
+CA.register_plugin("refdict", "props.c17backend", "RefDict")
+bad = None
+if "inherit_ops" in CASE:
+    for k, v in C17.INH_FILES.items(): print("---", k); print(v)
+    got, want = C17.inh_run(LK, CASE["inherit_ops"]), C17.inh_expected(CASE["inherit_ops"])
+    for g, w in zip(got, want):
+        print(g[0], "->", g[1], g[2], " documented:", w[1], w[2])
+        if (g[1], g[2]) != (w[1], w[2]) and not bad: bad = "after %s a cached section was executed / replayed for the wrong template" % g[0]
+else:
+    got, want = C17.key_run(TP, CASE["cache_key"], [tuple(x) for x in CASE["values"]]), C17.key_expected(CASE["cache_key"], [tuple(x) for x in CASE["values"]])
+    print("cache_key", repr(CASE["cache_key"]), "values", CASE["values"])
+    print("outputs", got[0], "keys", got[1]); print("documented", want[0], "keys", want[1])
+    if (list(got[0]), list(got[1])) != (want[0], want[1]): bad = "the key handed to the backend is not the value of cache_key"
+print("VIOLATED: " + bad if bad else "HOLDS")
+sys.exit(1 if bad else 0)
+""".replace("__CASE__", repr(i))
+        return (c["kind"], body, repr(sorted(i.items(), key=str)))
     body = """
 sys.path.insert(0, "/verif")
 CASE = __CASE__
@@ -328,6 +484,10 @@ def run(check, tier):
     for n in range(0, N + 1):
         jobs.append(("C17-seq-%d" % n, h_seq(n, n <= 1), on_seq, "render, %d solver-chosen operations, render (%s configuration flags)" % (n, "all" if n <= 1 else "two"),
                      dict(ops=n, alphabet=OPS), ("ran",)))
+    for n in range(0, {"quick": 2, "thorough": 4}[tier] + 1):
+        jobs.append(("C17-inherit-%d" % n, h_inherit(n), on_inherit, "cached defs / block of a base template and two templates inheriting it: render, %d solver-chosen operations, two renders" % n,
+                     dict(ops=n, operations=INH_OPS), ("ran",)))
+    jobs.append(("C17-key", h_key, on_key, "cache_key built from several pieces x two solver-chosen value pairs", dict(spellings=KEY_SPELLINGS, values=KEY_VALUES), ("ran",)))
     jobs.append(("C17-ctx", h_ctx, on_ctx, "pass_context backend over 2-3 renders with solver-chosen contexts", dict(), ("ran",)))
     jobs.append(("C17-two", h_two, on_two, "two templates whose URIs differ in one solver-chosen character share a backend", dict(), ("ran",)))
     for j in jobs:
